@@ -826,7 +826,9 @@ class Tensor:
             # No need to constrain dtypes if we aren't tracking the graph.
             # Also, it is nice to enable complex arithmetic through mygrad
             # functions that are wrapped in no_autodiff
-            if not issubclass(dtype, CONSTANT_ONLY_DTYPES):
+            if not issubclass(dtype, CONSTANT_ONLY_DTYPES) or issubclass(
+                dtype, np.timedelta64
+            ):  # (np.timedelta64 subclasses np.signedinteger but is not a real number type)
                 raise TypeError(
                     f"Tensor data must be of an floating type, integer type, or boolean type, "
                     f"received {dtype}"
